@@ -40,6 +40,7 @@ def run(rep: Report, tier: str) -> None:
 	rule_e(rep, idx)
 	rule_f(rep, idx)
 	rule_g(rep, idx)
+	rule_h(rep, idx)
 
 
 def rule_a(rep: Report, idx: SourceIndex) -> None:
@@ -502,3 +503,54 @@ def rule_g(rep: Report, idx: SourceIndex) -> None:
 					continue
 				key = f'{rel}:{q}:{s_.text[:50]}'
 				r.check(s_.anchored, key, (rel, s_.node.lineno), f'{q} tests `{s_.text[:80]}` on an entry path without the separator: the path of a sibling whose tag merely extends another tag (`…list` / `…list_comp`, `…dict` / `…dict_comp`) matches too, so that sibling and its subtree are taken for descendants (dropped from expand, or returned as children of the wrong entry)', s_.text[:100])
+
+
+def rule_h(rep: Report, idx: SourceIndex) -> None:
+	"""`xs[:-k]` drops the last k elements only for k >= 1: for k == 0 it is `xs[:0]`, the EMPTY list. A path computed by cutting "k elements from the end"
+	with k obtained from list.index() / find() / a difference of lengths is empty exactly in the boundary case (the requested tag is the entry's own tag),
+	so the query answers NodeNotFound('') instead of the entry itself."""
+	from vlib.match import may_reach
+	r = rep.rule('C10/no-negated-zero-slice', 'no path computation in the node queries slices with a negated bound that can be zero (`xs[:-k]` with k from index()/find()/a length difference): the boundary case must keep the whole sequence', floor=1)
+	files = ['rogw/tranp/syntax/ast/cache.py', 'rogw/tranp/syntax/ast/path.py', 'rogw/tranp/syntax/ast/query.py', 'rogw/tranp/syntax/node/query.py', 'rogw/tranp/dsn/dsn.py']
+	n_slices = 0
+	for rel in files:
+		m = idx.mod(rel)
+		rep.consulted(rel)
+		for q, f in m.functions.items():
+			if '#' in q:
+				continue
+			for sub in ast.walk(f.node):
+				if not (isinstance(sub, ast.Subscript) and isinstance(sub.slice, ast.Slice)):
+					continue
+				n_slices += 1
+				for bound in (sub.slice.lower, sub.slice.upper):
+					if not (isinstance(bound, ast.UnaryOp) and isinstance(bound.op, ast.USub)):
+						continue
+					k = bound.operand
+					if isinstance(k, ast.Constant):
+						continue  # a literal -1 is what it says
+					can_be_zero = True
+					why = unparse(k)
+					if isinstance(k, ast.Name):
+						defs_ = may_reach(f.node, k) or []
+						vals = [getattr(d_, 'value', None) for d_ in defs_]
+						why = '; '.join(unparse(v)[:40] for v in vals if v is not None) or why
+						if not vals:
+							continue  # a parameter: the callers decide (every caller in the repository passes a positive constant)
+						def zeroable(v) -> bool:
+							if v is None:
+								return False
+							if isinstance(v, ast.Call) and isinstance(v.func, ast.Attribute) and v.func.attr in ('index', 'find', 'rfind', 'count'):
+								return True
+							if isinstance(v, ast.BinOp) and isinstance(v.op, ast.Sub):
+								return True
+							return False
+						can_be_zero = any(zeroable(v) for v in vals)
+					elif not (isinstance(k, ast.Call) and isinstance(k.func, ast.Attribute) and k.func.attr in ('index', 'find', 'rfind', 'count')) and not (isinstance(k, ast.BinOp) and isinstance(k.op, ast.Sub)):
+						continue
+					key = f'{rel}:{q}:{unparse(sub)[:50]}'
+					r.check(not can_be_zero, key, (rel, sub.lineno), f'{q} slices with `{unparse(sub)[:70]}`, where `{unparse(k)}` ({why}) can be 0: `xs[:-0]` is empty, not the whole sequence. For the boundary case (the entry itself carries the requested tag) the path is cut to nothing and the query raises NodeNotFound(\'\') instead of returning the entry', unparse(sub)[:100])
+	if n_slices == 0:
+		r.skip('slices', None, 'no slice found in the path / query modules')
+	else:
+		r.ok('slices-scanned', None, message=f'{n_slices} slices scanned')
